@@ -948,6 +948,14 @@ func (e *Engine) callContract(c *Contract, fn *types.Func, recvName string, recv
 		t := term(e.evalSpec(cl.Expr, mkEnv(st, pre)))
 		st.assume(t)
 	}
+	// offers: postconditions proved like ensures but handed only to callers that ask for them by label
+	// (//@ import "label"), so that rarely needed conditional facts do not burden every call site
+	for _, cl := range c.byKind("offers", "") {
+		if e.importAll || e.imports(cl.Label) {
+			t := term(e.evalSpec(cl.Expr, mkEnv(st, pre)))
+			st.assume(t)
+		}
+	}
 	// slices of streams returned: if an ensures pins the length to a literal, use it and own the elements
 	for i, r := range results {
 		sl, ok := r.(VSlice)
@@ -1248,7 +1256,7 @@ func (e *Engine) handleClosureArg(lit *ast.FuncLit, fv VFunc, st *State, where s
 		for _, cl := range e.litClauses(lit, "use") {
 			env := withCalls(s2, kc, extra)
 			env.old = preStep
-			e.useLemma(cl.Expr, env, s2, cl.Where)
+			e.useLemma(cl.Expr, env, s2, cl.Where, hasTag(cl.Tags, "cond"))
 		}
 		for j, cl := range invs {
 			env := withCalls(s2, mkArith("+", kc, mkInt(1)), extra)
@@ -1260,7 +1268,7 @@ func (e *Engine) handleClosureArg(lit *ast.FuncLit, fv VFunc, st *State, where s
 		for _, cl := range e.litClauses(lit, "thenuse") {
 			env := withCalls(s2, kc, extra)
 			env.old = preStep
-			e.useLemma(cl.Expr, env, s2, cl.Where)
+			e.useLemma(cl.Expr, env, s2, cl.Where, hasTag(cl.Tags, "cond"))
 		}
 		for j, cl := range yields {
 			if !hasRet {
@@ -1334,4 +1342,23 @@ func (e *Engine) handleClosureArg(lit *ast.FuncLit, fv VFunc, st *State, where s
 			st.assume(mkForall([]*Term{kb}, mkImplies(guard, mkEq(lhs, y)), [][]*Term{{lhs}}))
 		}
 	}
+}
+
+// imports: does the contract of the function being verified import offers with this label?
+func (e *Engine) imports(label string) bool {
+	if label == "" || len(e.frames) == 0 {
+		return false
+	}
+	fi := e.frames[0].fi
+	if fi == nil || fi.Contract == nil {
+		return false
+	}
+	for _, cl := range fi.Contract.byKind("import", "") {
+		for _, n := range cl.Names {
+			if strings.Trim(n, `"`) == label {
+				return true
+			}
+		}
+	}
+	return false
 }
